@@ -71,8 +71,32 @@ def memo_rule(index, ctx):
         ctx.ok("R4", "differentiation stages", "no memo (`if k not in d: d[k] = ...`) in the transform package", "")
 
 
+def sibling_signature_rule(index, ctx):
+    """backward and mtl_backward are two entry points of one interface: the optional parameters they share come in the same relative order, so that
+    a positional call that is right for one is right for the other (a caller who passes the flag in the position it has in mtl_backward must not
+    set the chunk size of backward instead)."""
+    from ..report import norm_text  # noqa: F401
+
+    ctx.rule("R5", "the two entry points list the optional parameters they share (retain_graph, parallel_chunk_size) in the same relative order")
+    b = index.find_function("torchjd.autojac.backward.backward")
+    m = index.find_function("torchjd.autojac.mtl_backward.mtl_backward")
+    if b is None or m is None:
+        return
+    def order(f):
+        kwonly = {a.arg for a in f.node.args.kwonlyargs}
+        return [a.arg for a in f.node.args.args if a.arg in ("retain_graph", "parallel_chunk_size")], kwonly
+    ob, kb = order(b)
+    om, km = order(m)
+    common = [x for x in ob if x in om]
+    same = common == [x for x in om if x in ob]
+    ctx.require(same, "R5", "backward / mtl_backward: shared optional parameters in the same order", f"both take {common} in this order" + (f" (keyword-only: {sorted(kb | km)})" if kb | km else ""),
+                f"backward takes {ob} and mtl_backward takes {om}: a positional call written for one entry point binds retain_graph to the chunk size of the other (True passes the positivity check "
+                "as 1) and leaves the flag at its default — the graph is freed although the caller asked to keep it", b.loc())
+
+
 def check(index, ctx):
     memo_rule(index, ctx)
+    sibling_signature_rule(index, ctx)
     ctx.rule("R1", "at every torch.autograd.grad site the retain_graph argument is, by interprocedural value flow, either the entry point's own retain_graph parameter unmodified "
              "or the literal True; single-sweep differentiations (task gradients) use the parameter")
     ctx.rule("R2", "among the sweeps of one Jacobian, the last one executed carries the caller's flag and every earlier one the literal True (so retain_graph=False works for every chunk size and frees the graph exactly once, at the end)")
